@@ -27,7 +27,7 @@ def run(ctx):
     for comp in all_sccs:
         for f in comp:
             b = F.bodies[f]
-            g = recur.field_counter_guard(b) or recur.depth_param_guard(F, b)
+            g = recur.field_counter_guard(b, F, set(comp)) or recur.depth_param_guard(F, b)
             if g is not None:
                 guards[f] = g
     ctx.instance("C16.1", "parser recursion components: %d (sizes %s); guarded functions: %s" % (len(all_sccs), [len(c) for c in all_sccs], sorted(guards) or "none"))
